@@ -504,12 +504,16 @@ def compare_marshal(E, name, eq, n, msgs):
                             extra = lambda: o.b.raw
                         fn = C if variant == "c" else pre + obj + "_unmarshal"
                         rv = L.f(fn)(o.buf, data, comp, checked) & 1
-                        res.append((rv, o.buf.raw[:N.off[kind + (".h" if kind == "wk_params" else ".b")]], extra()))
+                        # the objects are compared by VALUE (their uncompressed marshalling), not by the raw bytes of the structs: padding bytes
+                        # (after a bool, after a slot index) are unspecified and differ legitimately, e.g. when unmarshal decodes into a local first
+                        _, utotal = c15.layout(kind, False, l, sig)
+                        res.append((rv, O.marshal(kind, o.buf, False, utotal)[0] if rv else None))
                     else:
                         o = L.buf(L.size[kind])
                         fn = C if variant == "c" else pre + obj + "_unmarshal"
                         rv = L.f(fn)(o, data, comp, checked) & 1
-                        res.append((rv, o.raw))
+                        _, utotal = c15.layout(kind, False, l, sig)
+                        res.append((rv, O.marshal(kind, o, False, utotal)[0] if rv else None))
                 eq(res[0], res[1])
         elif rest.endswith("_marshal"):
             d1, _ = O.marshal(kind, buf, bool(comp), total)
